@@ -246,7 +246,18 @@ func (st *StateTransition) TransitionDb() (*core.ExecutionResult, error) {
 
 	// Set up the initial access list.
 	if rules.IsBerlin {
-		activePrecompiles := append(corevm.ActivePrecompiles(rules), st.evm.GetCustomPrecompiledContractsAddress()...)
+		// Copy into a fresh slice: corevm.ActivePrecompiles returns go-ethereum's package-level slice, which must not
+		// be appended into (its spare capacity would be shared by every concurrent EVM execution in the process).
+		// Skip empty addresses, so the zero address does not become warm for free.
+		nativePrecompiles := corevm.ActivePrecompiles(rules)
+		customPrecompiles := st.evm.GetCustomPrecompiledContractsAddress()
+		activePrecompiles := make([]common.Address, 0, len(nativePrecompiles)+len(customPrecompiles))
+		activePrecompiles = append(activePrecompiles, nativePrecompiles...)
+		for _, customPrecompile := range customPrecompiles {
+			if customPrecompile != (common.Address{}) {
+				activePrecompiles = append(activePrecompiles, customPrecompile)
+			}
+		}
 		st.state.PrepareAccessList(msg.From(), msg.To(), activePrecompiles, msg.AccessList())
 	}
 	var (
